@@ -96,6 +96,7 @@ func c16(c *h.Ctx) {
 	c16units(c, r)
 	c16matrix(c, r)
 	c16multi(c, r)
+	c16zip(c, r)
 	c16acme(c, r)
 }
 
